@@ -137,20 +137,15 @@ theorem toL_seg {sep : Char} {ac : Bool} (strip : Bool) (seg : Seg) (hwf : wfSeg
 
 theorem toL_flags {ac : Bool} (sep : Char) (seg : Seg) (hwf : wfSeg ac seg = true) :
     (toL sep seg).isColl = isColl seg ∧ (toL sep seg).isInter = isInterColl seg ∧
-    (toL sep seg).isEmptyColl = isEmptyColl seg ∧ (toL sep seg).isTop = false := by
+    (toL sep seg).isTop = false := by
   obtain ⟨t, a⟩ := seg
   cases t <;> cases a <;> simp only [wfSeg, Bool.false_eq_true] at hwf
   case search.search inv m attr term =>
     by_cases hm : m = .regex <;>
-      simp [toL, hm, LSeg.isColl, LSeg.isInter, LSeg.isEmptyColl, LSeg.isTop, isColl, isInterColl,
-        isEmptyColl]
+      simp [toL, hm, LSeg.isColl, LSeg.isInter, LSeg.isTop, isColl, isInterColl]
   case collector.collector e op =>
-    cases e <;> cases op <;>
-      simp [toL, tokenize, LSeg.isColl, LSeg.isInter, LSeg.isEmptyColl, LSeg.isTop, isColl,
-        isInterColl, isEmptyColl]
-  all_goals
-    simp [toL, LSeg.isColl, LSeg.isInter, LSeg.isEmptyColl, LSeg.isTop, isColl, isInterColl,
-      isEmptyColl]
+    cases op <;> simp [toL, LSeg.isColl, LSeg.isInter, LSeg.isTop, isColl, isInterColl]
+  all_goals simp [toL, LSeg.isColl, LSeg.isInter, LSeg.isTop, isColl, isInterColl]
 
 theorem star_tokenize {sep : Char} {k : Str} (h : k.contains '*' = false) :
     '*' ∉ tokChars (tokenize sep k) := by
@@ -197,33 +192,20 @@ theorem toL_wf {sep : Char} {ac : Bool} (seg : Seg) (hwf : wfSeg ac seg = true) 
   case keywordSearch.keyword inv kw p =>
     exact allBare_deep sep _ p (by simp) (by simp)
   case collector.collector e op =>
-    simp only [Bool.and_eq_true, Bool.or_eq_true, decide_eq_true_eq] at hwf
-    exact ⟨hwf.1, headNotAmp_tokenize hwf.2, allBare_deep sep _ e (by simp) (by simp)⟩
+    simp only [Bool.or_eq_true, decide_eq_true_eq] at hwf
+    exact ⟨hwf, allBare_deep sep _ e (by simp) (by simp)⟩
 
-theorem toL_wfFrom {sep : Char} : ∀ (segs : List Seg) (ac mm : Bool), wfFrom ac segs = true →
-    (mm = true → markFrom true segs = true) → wfFromL sep ac mm (segs.map (toL sep)) := by
+theorem toL_wfFrom {sep : Char} : ∀ (segs : List Seg) (ac : Bool), wfFrom ac segs = true →
+    wfFromL sep ac (segs.map (toL sep)) := by
   intro segs
   induction segs with
-  | nil => intro _ _ _ _; trivial
+  | nil => intro _ _; trivial
   | cons s r ih =>
-    intro ac mm hwf hmk
+    intro ac hwf
     simp only [wfFrom, Bool.and_eq_true] at hwf
-    obtain ⟨f1, f2, f3, _⟩ := toL_flags sep s hwf.1
-    refine ⟨toL_wf s hwf.1, ?_, ?_⟩
-    · intro hi
-      cases hmv : mm
-      · rfl
-      · have := hmk hmv
-        rw [f2] at hi
-        simp [markFrom, hi] at this
-    · rw [f1, f3]
-      apply ih _ _ hwf.2
-      intro hh
-      simp only [Bool.and_eq_true] at hh
-      have := hmk hh.1
-      simp only [markFrom, Bool.true_and, Bool.and_eq_true] at this
-      rw [hh.2] at this
-      exact this.2
+    refine ⟨toL_wf s hwf.1, ?_⟩
+    rw [(toL_flags sep s hwf.1).1]
+    exact ih _ hwf.2
 
 theorem textFrom_toL {sep : Char} : ∀ (segs : List Seg) (ac lead : Bool), wfFrom ac segs = true →
     textFrom sep lead (segs.map (toL sep)) = writeFrom sep lead segs := by
@@ -265,23 +247,12 @@ theorem write_nonblank (fslash : Bool) (segs : List Seg) (hwf : wfSegs segs = tr
       obtain ⟨c, hc, hw⟩ := writeSeg_nonblank (sep := '.') s hwf.1
       exact ⟨c, by simp [write, writeFrom, hc], hw⟩
 
-/-- **parse ∘ write, either value of `strip`.**  Forward-slash texts need `fslashExpressible`
-(finding C08-6). -/
-theorem parseWith_write (fslash strip : Bool) (segs : List Seg) (hwf : wfSegs segs = true)
-    (hx : fslash = true → fslashExpressible segs = true) :
+/-- **parse ∘ write, either value of `strip`**, every well-formed list, both notations. -/
+theorem parseWith_write (fslash strip : Bool) (segs : List Seg) (hwf : wfSegs segs = true) :
     parseWith fslash strip (write fslash segs) =
       .ok (if strip then segs else segs.map (keepEsc (if fslash then '/' else '.'))) := by
-  have htop : ((segs.map (toL (if fslash then '/' else '.'))).head?.map LSeg.isTop).getD false
-      = false := by
-    cases segs with
-    | nil => rfl
-    | cons s r =>
-      simp only [wfSegs, wfFrom, Bool.and_eq_true] at hwf
-      simp [(toL_flags _ s hwf.1).2.2.2]
   have := parseWith_texts fslash strip (segs.map (toL (if fslash then '/' else '.')))
-    (by
-      rw [htop, Bool.or_false]
-      exact toL_wfFrom segs false fslash hwf hx)
+    (toL_wfFrom segs false hwf)
     (by rw [textAll_toL fslash segs hwf]; exact write_nonblank fslash segs hwf)
   rw [textAll_toL fslash segs hwf, map_seg_toL strip segs false hwf] at this
   exact this
